@@ -34,8 +34,10 @@ COMPONENTS = {"real": ["twisted.internet.defer.inlineCallbacks", "twisted.intern
                        "twisted.python.failure.Failure.throwExceptionIntoGenerator"],
               "stub": ["order in which awaited Deferreds fire and points at which the returned Deferred is cancelled (tape)"]}
 RULE = ("run = one random program tree (<=40 nodes, function nesting <=3, mixed generator/coroutine nesting) over a pool of 1..10 Deferreds "
-        "(each: success or failure outcome, pre-fired or not, canceller in {none, noop, fires success, fires failure}); while the program is "
-        "suspended the tape fires the awaited Deferred, fires another pool Deferred early, or cancels the returned Deferred; "
+        "(each: success or failure outcome, pre-fired or not, canceller in {none, noop, fires success, fires failure}; in 60% of the runs also a shape: "
+        "plain / already called back but waiting on another Deferred / called back while paused, and optionally a last callback that transforms the value); "
+        "while the program is suspended the tape fires the awaited Deferred, fires it from inside the last callback of the Deferred the program awaits next, "
+        "fires another pool Deferred early, or cancels the returned Deferred; "
         "non-trivial = the program suspended at least once AND (a cancellation hit a suspension, or an exception was observed at an await, "
         "or a nested function was called)")
 ASSUMPTIONS = ["each Deferred is awaited at most once (the k-th executed await uses pool Deferred k)",
@@ -405,12 +407,19 @@ def run(sim):
     top_kind = sim.draw_choice(["gen", "coro"], "top")
     cancel_w = sim.draw_choice([0, 2, 6], "cancel_weight")
     early_w = sim.draw_choice([0, 2], "early_weight")
+    shapes_on = sim.draw_bool(0.6, "deferred_shapes")
     plan = []
     for k in range(npool):
         out = sim.draw_weighted([("ok", 5), ("E1", 2), ("E2", 1)], "outcome")
         canc = sim.draw_weighted([("none", 4), ("noop", 2), ("succ", 2), ("fail", 2)], "canceller")
         pre = sim.draw_bool(0.3, "prefire")
-        plan.append((out, canc, pre))
+        # how the Deferred looks to the function that awaits it before it has an outcome: plain = never called back;
+        # chained = already called back, but one of its callbacks returned a Deferred that has not fired (`called` is true,
+        # there is no result yet); paused = called back while paused.  xform = its owner gave it a last callback that
+        # maps a success v to ("t", v): the Deferred's outcome is what comes out of its whole callback chain.
+        shape = sim.draw_weighted([("plain", 6), ("chained", 2), ("paused", 1)], "shape") if shapes_on else "plain"
+        xform = shapes_on and sim.draw_bool(0.3, "xform")
+        plan.append((out, canc, pre, shape, xform))
     st = {"nodes": 0, "id": 0}
     tree = gen_tree(sim, st, 0, 0)
     sim.config = {"npool": npool, "top": top_kind, "cancel_w": cancel_w, "early_w": early_w,
@@ -424,13 +433,16 @@ def run(sim):
     def natural(k):
         out = plan[k][0]
         if out == "ok":
-            return ("ok", ("v", k))
+            return ("ok", ("t", ("v", k)) if plan[k][4] else ("v", k))
         return ("err", (EXC[out], ("e", k)))
+
+    def raw_value(k):
+        return ("v", k)
 
     def after_cancel(k):
         c = plan[k][1]
         if c == "succ":
-            return ("ok", ("cv", k))
+            return ("ok", ("t", ("cv", k)) if plan[k][4] else ("cv", k))
         if c == "fail":
             return ("err", (E2, ("ce", k)))
         return ("err", (defer.CancelledError, ()))
@@ -449,21 +461,56 @@ def run(sim):
             sim.event("canceller", k, c)
             kind, payload = after_cancel(k)
             if c == "succ":
-                d.callback(payload)
+                d.callback(("cv", k))
             elif c == "fail":
                 d.errback(payload[0](*payload[1]))
         return canceller
 
-    pool = [CountingDeferred(make_canceller(k)) for k in range(npool)]
+    hooks = {}             # pool index -> callable run inside that Deferred's last (transforming) callback
+    inner = {}             # chained shape: the unfired Deferred the outer one is waiting for
+
+    def make_pool_deferred(k):
+        shape, xform = plan[k][3], plan[k][4]
+        if shape == "chained":
+            inner[k] = defer.Deferred(make_canceller(k))
+            d = CountingDeferred(None)
+            d.addCallback(lambda _ignored: inner[k])
+        else:
+            d = CountingDeferred(make_canceller(k))
+        if xform:
+            def last(res):
+                h = hooks.pop(k, None)
+                if h is not None:
+                    h()
+                return res if isinstance(res, Failure) else ("t", res)
+            d.addBoth(last)
+        if shape == "chained":
+            sim.probe("awaited_deferred_called_but_waiting_on_another")
+            d.callback("pre")
+        elif shape == "paused":
+            sim.probe("awaited_deferred_called_while_paused")
+            d.pause()
+            if plan[k][0] == "ok":
+                d.callback(raw_value(k))
+            else:
+                d.errback(EXC[plan[k][0]]("e", k))
+        return d
+
+    pool = [make_pool_deferred(k) for k in range(npool)]
 
     def fire(k):
         fired.add(k)
         kind, payload = natural(k)
         sim.event("fire", k, kind)
+        shape = plan[k][3]
+        if shape == "paused":
+            pool[k].unpause()
+            return
+        target = inner[k] if shape == "chained" else pool[k]
         if kind == "ok":
-            pool[k].callback(payload)
+            target.callback(raw_value(k))
         else:
-            pool[k].errback(payload[0](*payload[1]))
+            target.errback(payload[0](*payload[1]))
 
     for k in range(npool):
         if plan[k][2]:
@@ -495,9 +542,26 @@ def run(sim):
                   lambda: "returned Deferred unfired, program awaiting %r, fired=%r; log tail %r" % (k, sorted(fired), world.trace[-3:]))
         stats["suspensions"] += 1
         others = [j for j in range(npool) if j not in fired and j != k]
-        op = sim.draw_weighted([("fire", 6), ("early", early_w if others else 0), ("cancel", cancel_w)], "op")
+        # a called-back-but-paused Deferred ignores cancel() (documented: cancel after callback is a no-op); no verdict there
+        can_cancel = plan[k][3] != "paused"
+        # the awaited Deferred is fired from inside the last callback of the Deferred the function will await next
+        reentrant_ok = k + 1 < npool and (k + 1) not in fired and plan[k + 1][4] and plan[k + 1][0] == "ok"
+        op = sim.draw_weighted([("fire", 6), ("early", early_w if others else 0), ("cancel", cancel_w if can_cancel else 0),
+                                ("fire_inside_next", 3 if reentrant_ok else 0)], "op")
         mark = len(world.trace)
-        if op == "fire":
+        if op == "fire_inside_next":
+            sim.probe("resumed_inside_callback_of_next_awaited")
+            sim.event("fire-inside-callback-of", k + 1)
+
+            def inside(k=k):
+                with sim.guard("fire-raised", "awaited-from-inside-callback"):
+                    fire(k)
+            hooks[k + 1] = inside
+            with sim.guard("fire-raised", "next"):
+                fire(k + 1)
+            sim.check("resumes-on-fire", len(world.trace) > mark and world.trace[mark][:2] == ("resumed", k), top_kind,
+                      lambda: "await #%d fired (from inside a callback) but the program did not observe it; log tail %r" % (k, world.trace[-3:]))
+        elif op == "fire":
             with sim.guard("fire-raised", "awaited"):
                 fire(k)
             sim.check("resumes-on-fire", len(world.trace) > mark and world.trace[mark][:2] == ("resumed", k), top_kind,
@@ -505,7 +569,7 @@ def run(sim):
         elif op == "early":
             j = sim.draw_choice(others, "which")
             sim.probe("fired_before_awaited")
-            if sim.draw_bool(0.25, "early_by_cancel"):
+            if plan[j][3] != "paused" and sim.draw_bool(0.25, "early_by_cancel"):
                 # the owner of d_j cancels it before the program gets to it: its outcome is the canceller's
                 cancelled[j] = True
                 fired.add(j)
